@@ -1,0 +1,90 @@
+//go:build verif
+
+package listener
+
+// Contracts for the deductive verifier in /verif (govc); comments only, build tag "verif".
+
+//@ func subscribes(trigger, added, removed, subs, oldRel, newRel) (r)
+//@   props C12
+//@   requires oldRel != nil ==> validID(oldRel.id)
+//@   requires newRel != nil ==> validID(newRel.id)
+//@   ensures r == subRule(trigger, added, removed, subs, oldRel, newRel)
+
+// selected(l, evt): the documented rule for listener l installed alone.
+//@ pred selected(ls Listener, evt EntityEvent, added *Mask, removed *Mask) bool =
+//@   subRule(lsSubs(ls) & evt.EventTypes, added, removed, lsComps(ls), evt.OldRelation, evt.NewRelation)
+
+//@ pred distinctListeners(ls []Listener) bool =
+//@   forall j int, k int :: {ls[j].val, ls[k].val} 0 <= j && j < len(ls) && 0 <= k && k < len(ls) && j != k ==> ls[j].val != ls[k].val
+
+//@ func Dispatch.Notify(l, world, evt)
+//@   props C12
+//@   requires distinctListeners(l.listeners)
+//@   requires forall k int :: 0 <= k && k < len(l.listeners) ==> l.listeners[k] != nil
+//@   requires evt.OldRelation != nil ==> validID(evt.OldRelation.id)
+//@   requires evt.NewRelation != nil ==> validID(evt.NewRelation.id)
+//@   ensures forall k int :: 0 <= k && k < len(l.listeners) ==>
+//@      notifyCount[l.listeners[k].val] == old(notifyCount[l.listeners[k].val]) + ite(selectedV(l.listeners[k], evt), 1, 0)
+//@   ensures forall k int :: 0 <= k && k < len(l.listeners) && selectedV(l.listeners[k], evt) ==> notifyLast[l.listeners[k].val] == evtId(evt)
+//@   modifies notifyCount[ALL], notifyLast[ALL]
+//@   loop #1
+//@   inv forall k int :: {l.listeners[k].val} 0 <= k && k < len(l.listeners) ==>
+//@      notifyCount[l.listeners[k].val] == old(notifyCount[l.listeners[k].val]) + ite(k < $i && selectedV(l.listeners[k], evt), 1, 0)
+//@   inv forall k int :: {l.listeners[k].val} 0 <= k && k < $i && selectedV(l.listeners[k], evt) ==> notifyLast[l.listeners[k].val] == evtId(evt)
+
+// selectedV: the rule applied to the masks carried by the event value itself.
+//@ pred selectedV(ls Listener, evt EntityEvent) bool =
+//@   (lsSubs(ls) & evt.EventTypes) != 0 && (lsComps(ls) == nil
+//@     || (((lsSubs(ls) & evt.EventTypes) & event.Relations) != 0 && ((evt.OldRelation != nil && specBit(*lsComps(ls), evt.OldRelation.id)) || (evt.NewRelation != nil && specBit(*lsComps(ls), evt.NewRelation.id))))
+//@     || (((lsSubs(ls) & evt.EventTypes) & (event.EntityCreated | event.ComponentAdded)) != 0 && meets(*lsComps(ls), evt.Added))
+//@     || (((lsSubs(ls) & evt.EventTypes) & (event.EntityRemoved | event.ComponentRemoved)) != 0 && meets(*lsComps(ls), evt.Removed)))
+
+//@ func Dispatch.Subscriptions(l) (r)
+//@   props C12
+//@   ensures r == l.events
+
+//@ func Dispatch.Components(l) (r)
+//@   props C12
+//@   ensures l.hasComponents ==> r == &l.components
+//@   ensures !l.hasComponents ==> r == nil
+
+// dispatchInv: what the Dispatch tells the world covers every sub-listener: its event types include
+// theirs, and its component restriction (if it has one) includes theirs. With lemma subMono this means the
+// world never withholds an event that a sub-listener selects; Dispatch.Notify then re-filters exactly.
+// (The converse - the union is not larger than needed - is an efficiency matter and is not claimed.)
+//@ pred dispatchInv(events event.Subscription, comps Mask, hasComps bool, ls []Listener, n int) bool =
+//@   (forall k int :: {lsSubs(ls[k])} 0 <= k && k < n ==> (lsSubs(ls[k]) & ^events) == 0)
+//@   && (hasComps ==> (forall k int :: {lsComps(ls[k])} 0 <= k && k < n ==> lsComps(ls[k]) != nil && subset(*lsComps(ls[k]), comps)))
+
+//@ func NewDispatch(listeners) (r)
+//@   props C12
+//@   requires forall k int :: 0 <= k && k < len(listeners) ==> listeners[k] != nil
+//@   ensures r.listeners == listeners
+//@   ensures dispatchInv(r.events, r.components, r.hasComponents, listeners, len(listeners))
+//@   loop #1
+//@   inv dispatchInv(events, components, hasComponents, listeners, $i)
+
+//@ func Dispatch.AddListener(l, ls)
+//@   props C12
+//@   requires ls != nil
+//@   requires dispatchInv(l.events, l.components, l.hasComponents, l.listeners, len(l.listeners))
+//@   ensures len(l.listeners) == old(len(l.listeners)) + 1
+//@   ensures l.listeners[old(len(l.listeners))] == ls
+//@   ensures forall k int :: 0 <= k && k < old(len(l.listeners)) ==> l.listeners[k] == old(l.listeners[k])
+//@   ensures dispatchInv(l.events, l.components, l.hasComponents, l.listeners, len(l.listeners))
+//@   modifies l.listeners, l.events, l.components, l.hasComponents, old(l.listeners)[ALL]
+
+//@ func Callback.Subscriptions(l) (r)
+//@   props C12
+//@   ensures r == l.events
+
+//@ func Callback.Components(l) (r)
+//@   props C12
+//@   ensures l.hasComponents ==> r == &l.components
+//@   ensures !l.hasComponents ==> r == nil
+
+//@ func NewCallback(callback, events, components) (r)
+//@   props C12
+//@   requires forall k int :: 0 <= k && k < len(components) ==> validID(components[k].id)
+//@   ensures r.events == events && r.hasComponents == (len(components) > 0)
+//@   ensures forall i uint8 :: specBit(r.components, i) == (validID(i) && exists k int :: 0 <= k && k < len(components) && components[k].id == i)
